@@ -59,13 +59,13 @@ fn case_list(ctx: &Ctx) -> Vec<Case> {
     }
     // C3: repeats at the far edge of the window (distances within a few bytes of 32 KiB and of
     // 32 KiB - 258), first byte of the copy often differing only in a bit the hash drops
-    let ne = ctx.n(330, 20_000);
+    let ne = ctx.n(1000, 20_000);
     for j in 0..ne {
         let mut r = ctx.rng("listE", j);
         v.push(Case { size: 34_000 + r.below(if j % 3 == 0 { 200_000 } else { 60_000 }), class: 17, level: (j % 11) as u8, zlib: r.bool(), boundary: false });
     }
     // D: random mid sizes, all classes
-    let n = ctx.n(2500, 200_000);
+    let n = ctx.n(8000, 200_000);
     for j in 0..n {
         let mut r = ctx.rng("listD", j);
         let size = if r.chance(1, 4) { r.range(65, 400) } else { r.size_biased(if ctx.thorough() { 400_000 } else { 120_000 }) };
